@@ -148,7 +148,7 @@ static void run_scenario(const Scenario& sc, const string& child) {
   g_sys.clear();
   g_pipe_n = 0;
   g_nwait = 0;
-  string out = "ok", so, se;
+  string out = "ok", so, se, what;
   int status = -1;
   pid_t child_pid = -1;
   g_log = true;
@@ -181,6 +181,7 @@ static void run_scenario(const Scenario& sc, const string& child) {
     }
   } catch (const exception& e) {
     out = vt::exc_name(e);
+    what = string(e.what()).substr(0, 120);
   }
   g_log = false;
   int fds_after = count_fds();
@@ -216,12 +217,12 @@ static void run_scenario(const Scenario& sc, const string& child) {
     for (auto& o : sc.prog) {
       if (o.op == "w1") {
         size_t n = min<size_t>(o.n, so.size() - min(pos, so.size()));
-        so_eq = so_eq && pattern_ok(so.substr(pos, n), 1, gen);
+        so_eq = so_eq && pattern_ok(so.substr(min(pos, so.size()), n), 1, gen);
         pos += o.n;
         gen += o.n;
       } else if (o.op == "cat") {
         size_t n = min<size_t>(payload.size(), so.size() - min(pos, so.size()));
-        so_eq = so_eq && so.compare(pos, n, payload, 0, n) == 0;
+        so_eq = so_eq && so.compare(min(pos, so.size()), n, payload, 0, n) == 0;
         pos += payload.size();
       }
     }
@@ -232,7 +233,7 @@ static void run_scenario(const Scenario& sc, const string& child) {
   j.num("timeout", sc.timeout_usecs).str("delay", sc.delay).str("out", out);
   j.num("so_len", (long long)so.size()).num("so_eq", so_eq).num("se_len", (long long)se.size()).num("se_eq", se_eq);
   j.num("status", status).num("fds_before", fds_before).num("fds_after", fds_after).num("zombies", zombies).num("alive", alive);
-  j.num("got_n", got_n).num("got_ok", got_n < 0 || got_sum == exp_sum).num("has_cat", has_cat).raw("sys", "[" + g_sys + "]");
+  j.num("got_n", got_n).num("got_ok", got_n < 0 || got_sum == exp_sum).num("has_cat", has_cat).str("what", what).raw("sys", "[" + g_sys + "]");
   tr.emit(j);
   (void)child_pid;
 }
